@@ -35,7 +35,7 @@ import corpus11
 import gensql
 import sqlcheck
 import common
-from common import Driver, Infra, canon_json, log
+from common import Driver, Infra, canon_json, leanchecker, log
 from gensql import col, derived, eq, from_expr, item, join, select, setop, table, with_
 
 NEED_DRIVER = True
@@ -97,7 +97,7 @@ def targeted_cases(chk):
     # D16 site: unqualified * over 2 relations; every pair of relation kinds x join / comma x a few name pairs
     for i, (k1, k2) in enumerate([(a, b) for a in kinds for b in kinds]):
         for j, (n1, n2) in enumerate(NAME_POOL):
-            if (i + j) % 3 and chk.tier != "thorough":
+            if (i + j) % (2 if chk.tier == "thorough" else 3):
                 continue
             md = {}
             r1, c1 = _rel(k1, n1, "l" + n1, ["a", "e"], md)
@@ -270,14 +270,14 @@ def generated_cases(chk):
     out = []
     thorough = chk.tier == "thorough"
     R = gensql.Rand(chk.rng, max_depth=3 if thorough else 2)
-    n_stmt = 600 if thorough else 220
+    n_stmt = 400 if thorough else 220
     for i in range(n_stmt):
         s = R.stmt(chk.rng.choice([1, 2, 2, 3]) if thorough else chk.rng.choice([1, 2, 2]))
         if i % 2:
             s = starify(s, chk.rng)
         out.append({"kind": "gen-stmt", "tag": "star-heavy" if i % 2 else "plain", "ast": [s], "metadata": None,
                     "dialect": GEN_DIALECTS[i % len(GEN_DIALECTS)]})
-    n_script = 400 if thorough else 130
+    n_script = 250 if thorough else 130
     for i in range(n_script):
         stmts, md = gen_script(R, chk.rng, with_md=(i % 2 == 1))
         out.append({"kind": "gen-script", "tag": "metadata" if md else "plain", "ast": stmts, "metadata": md,
@@ -291,8 +291,7 @@ def build_inputs(chk, drv):
     for c in corpus:
         inputs.append({"kind": "corpus", "tag": c["origin"], "case": {k: v for k, v in c.items() if k != "origin"}})
     tp = corpus11.tpcds(common.REPO)
-    if chk.tier != "thorough":
-        tp = chk.rng.sample(tp, min(8, len(tp)))
+    tp = chk.rng.sample(tp, min(40 if chk.tier == "thorough" else 8, len(tp)))       # the long scripts: a seeded subset per run
     for c in tp:
         inputs.append({"kind": "tpcds", "tag": c["origin"], "case": {"sql": c["sql"], "dialect": c["dialect"]}})
     gen = targeted_cases(chk) + generated_cases(chk)
@@ -835,6 +834,11 @@ def run(chk):
 
 
 def finish(chk):
+    if chk.tier == "thorough" and chk.lean is not None and chk.lean.build_ok:
+        ok, out = leanchecker(["SqlLineage.Props.C11", "SqlLineage.Proofs.PermLemmas", "SqlLineage.Model.Lazy"])
+        chk.coverage["leanchecker"] = "accepted" if ok else "REJECTED: " + out[-300:]
+        if not ok:
+            chk.lean.forbidden.append("leanchecker rejected SqlLineage.Props.C11: " + out[-300:])
     chk.assumptions += [
         "CPython: the iteration order of a set of str-hashed objects is a function of PYTHONHASHSEED (modelled as an arbitrary permutation)",
         "the element ORDER of the list `to_cytoscape` returns and its positional edge ids `e<i>` are not compared: they follow networkx "
